@@ -10,6 +10,7 @@ counterexample string is always replayed on the real `re` engine, so an imprecis
 translation can cost a proof but not produce a false alarm."""
 from __future__ import annotations
 
+import json
 import re
 import re._constants as C
 import re._parser as P
@@ -285,3 +286,88 @@ def whitespace_unit(spec):
     return {'unit': 'regexlang.whitespace', 'function': 'compiler.py::Compiler.visit_Module (emitted prelude)',
             'obligations': [o], 'wall': time.time() - t0,
             'trusted': ['translation of patterns into SMT regular expressions (ASCII whitespace)']}
+
+
+# ---------------------------------------------------------------------------------------
+# C03: "tokenising and parsing lose nothing" -- the two regex layers agree on what a NAME is: every
+# attribute name the tokenizer accepts inside a tag is consumed whole by the parser's attribute
+# pattern (otherwise finditer skips the rest of the name and the value with it)
+# ---------------------------------------------------------------------------------------
+def _group_subpattern(pat, name):
+    tree = P.parse(pat.pattern, pat.flags)
+    gi = tree.state.groupdict[name]
+    found = []
+
+    def walk(sp):
+        for op, av in sp.data if hasattr(sp, 'data') else sp:
+            if op is C.SUBPATTERN:
+                if av[0] == gi:
+                    found.append(av[3])
+                walk(av[3])
+            elif op in (C.MAX_REPEAT, C.MIN_REPEAT, C.POSSESSIVE_REPEAT):
+                walk(av[2])
+            elif op is C.BRANCH:
+                for x in av[1]:
+                    walk(x)
+            elif op in (C.ASSERT, C.ASSERT_NOT):
+                walk(av[1])
+    walk(tree)
+    return found[0] if found else None
+
+
+NAME_SAMPLES = ['a', 'A1', 'x:y', 'data-x', '_p', '@click', 'café', 'café', 'a·b', 'กั',
+                'a‍b', '中文', 'naïve.x', 'ά']
+
+
+def attr_name_unit(spec):
+    import time
+    from .solve import solve_text
+    from .vc import real_module
+    t0 = time.time()
+    tk, pr = real_module('tokenize.py'), real_module('parser.py')
+    name_re = tk.collector.res['Name']
+    o = {'name': 'attr_name.layers_agree', 'expect': 'valid', 'okind': 'struct', 'backend': 'regexlang',
+         'time': 0.0, 'tried': 'translate',
+         'text': "every name the tokenizer's Name pattern accepts is matched entirely by the `name` group of "
+                 "parser.match_single_attribute (language inclusion)"}
+    sub = _group_subpattern(pr.match_single_attribute, 'name')
+    try:
+        a = translate(name_re)
+        flags = pr.match_single_attribute.flags
+        b = _seq(sub.data, bool(flags & re.IGNORECASE), bool(flags & re.DOTALL))
+        q, _ = inclusion_query(a, b)
+        r = solve_text(q, False, t_z3=spec.get('t_z3', 40), t_cvc5=spec.get('t_cvc5', 40))
+        o.update(backend=r['backend'], time=round(r['time'], 3), tried=r['tried'],
+                 status={'unsat': 'discharged', 'sat': 'failed'}.get(r['verdict'], 'unknown'))
+    except (Untranslatable, AttributeError) as e:
+        o.update(status='unknown', reason=repr(e))
+    if o['status'] == 'failed':
+        # replay on the real engine: a name of the tokenizer that the parser's attribute pattern
+        # does not consume whole, and what a document with such an attribute renders to
+        import subprocess
+        from .replay import PY, REPO
+        wit = None
+        for nm in NAME_SAMPLES:
+            if re.fullmatch(name_re, nm) is None:
+                continue
+            m = pr.match_single_attribute.match(' %s="v"' % nm)
+            if m is None or m.group('name') != nm:
+                wit = nm
+                break
+        o['confirmed'] = False
+        if wit is not None:
+            doc = '<p %s="v" k="w">z</p>' % wit
+            code = ("import sys; sys.path.insert(0, %r + '/src'); from chameleon import PageTemplate; "
+                    "import json; print(json.dumps(PageTemplate(%r)()))" % (REPO, doc))
+            try:
+                p = subprocess.run([PY, '-c', code], capture_output=True, text=True, timeout=120)
+                out = json.loads(p.stdout.strip().split('\n')[-1])
+            except Exception as e:  # noqa
+                out = 'error: %r' % (e,)
+            o['confirmed'] = out != doc
+            o['witness'] = {'inputs': {'body': doc},
+                            'detail': 'the attribute name %r is a Name for the tokenizer but the parser consumes only '
+                                      'part of it; the document renders as %r' % (wit, out)}
+    return {'unit': 'regexlang.attr_name', 'function': 'tokenize.py::Name / parser.py::match_single_attribute',
+            'obligations': [o], 'wall': time.time() - t0,
+            'trusted': ['translation of patterns into SMT regular expressions']}
